@@ -52,6 +52,7 @@ import numpy as np
 
 from .. import core
 from . import c11_smooth
+from . import c11_long
 from ..core import rat
 
 USES_TRANSLATOR = True          # the cosine flanks of the Tukey window (tk_rise, tk_fall) are regenerated from qats/signal.py
@@ -1759,7 +1760,7 @@ def container_clauses(inp):
 
 
 def run(chk):
-    chk.extra["rule"] = RULE + " " + SMOOTH_RULE
+    chk.extra["rule"] = RULE + " " + SMOOTH_RULE + " " + c11_long.RULE
     chk.assumptions += ["dyadic sample times and values; interp1d's slope division is exact or compared to 1e-12",
                         "stage functions replaced by tag functions on both sides for the order/dt correspondence; their numerics are C12's subject"]
     rng = chk.rng
@@ -1821,7 +1822,7 @@ def run(chk):
     lines, meta = [], []
     todo = []
     for c in corpus:
-        if "opts" in c or "start" in c or c.get("real") or c.get("container"):
+        if "opts" in c or "start" in c or c.get("real") or c.get("container") or c.get("long"):
             continue
         todo.append(([Fraction(v) for v in c["t"]], [Fraction(v) for v in c["x"]], {k: c[k] for k in CASE_KEYS if k in c}, "corpus"))
     for _ in range(M):
@@ -2014,6 +2015,8 @@ def run(chk):
                     type(e).__name__ + ": " + str(e)[:120], len(c["requests"]) - 1)]
         for oracle, exp, obs, idx in bad:
             chk.fail(oracle, dict(inp, requests=c["requests"][:idx + 1]), exp, obs)
+    # ---- long records (999 .. 131073 samples): the clauses where a blocked / vectorised variant of the pipeline would err -----------------
+    c11_long.run_long(chk, {"real_clauses": real_clauses, "Tags": Tags}, corpus)
     chk.sample(dict(t=[0, 1, 2, 3, 4], x=[0, 1, 4, 9, 16], opts="twin=(1,3) taper filter", model=[[1, 2, 3], [5, 11, 21]]))
     chk.sample(dict(t="0, 0.5, ... 20 (41 samples)", requests=[dict(twin=[2.0, 18.0], taperfrac=0.1, window_len=6, window="hanning")],
                     expected="33 time samples and 33 data samples; the same data as smoothing the tapered window asked from a second series"))
@@ -2032,6 +2035,8 @@ def replay(rp):
     if isinstance(inp, dict) and str(inp.get("kind", "")).startswith("sm-"):
         return c11_smooth.replay_smooth(rp)
     bad = 0
+    if isinstance(inp, dict) and inp.get("long"):
+        return c11_long.replay_long(rp, {"real_clauses": real_clauses, "Tags": Tags})
     if "start" in inp:
         for oracle, exp, obs in float_case(inp):
             print("FAILS:", oracle, "| expected", exp, "| observed", obs)
